@@ -119,12 +119,12 @@ vectors by default. To use Monte Carlo estimation, ``samples`` can be set to the
 desired to be used in the estimation. Similar to the :func:`~.apps.sample.sample` function, these two
 functions include a ``loss`` argument to specify the proportion of photons lost in the simulated GBS device.
 """
+import math
 from collections import Counter
 from typing import Generator, Union
 
 import networkx as nx
 import numpy as np
-from scipy.special import factorial
 
 import strawberryfields as sf
 from strawberryfields.backends import BaseGaussianState
@@ -284,7 +284,7 @@ def orbits(photon_number: int) -> Generator[list, None, None]:
         yield sorted(a[: k + 1], reverse=True)
 
 
-def orbit_cardinality(orbit: list, modes: int) -> Union[int, float]:
+def orbit_cardinality(orbit: list, modes: int) -> int:
     """Gives the number of samples belonging to the input orbit.
 
     For example, there are three possible samples in the orbit [2, 1, 1] with three modes: [1, 1,
@@ -305,12 +305,10 @@ def orbit_cardinality(orbit: list, modes: int) -> Union[int, float]:
     sample = orbit + [0] * (modes - len(orbit))
     counts = list(Counter(sample).values())
 
-    # factorials of numbers larger than 170 do not fit into a int,
-    # hence return float using the qarg `exact=True`
-    if modes > 170:
-        return factorial(modes, exact=True) / np.prod(factorial(counts, exact=True))
-
-    return int(factorial(modes, exact=False) / np.prod(factorial(counts, exact=False)))
+    # the multinomial coefficient is computed with exact integer arithmetic: floating-point
+    # factorials lose precision long before they overflow, and truncating their ratio
+    # undercounts (e.g., the orbit [2, 1, 1] with 25 modes has 6900 samples, not 6899)
+    return math.factorial(modes) // math.prod(math.factorial(c) for c in counts)
 
 
 def event_cardinality(photon_number: int, max_count_per_mode: int, modes: int) -> int:
